@@ -14,7 +14,6 @@ import (
 	"sync"
 	"time"
 
-	"github.com/k0kubun/pp"
 	"github.com/pkg/errors"
 	"github.com/xelaj/errs"
 
@@ -295,7 +294,9 @@ func (m *MTProto) startReadingResponses(ctx context.Context) {
 						m.warnError(errors.Wrap(err, "can't reconnect"))
 					}
 				default:
-					check(err)
+					// a message we can't read or process (unknown constructor, broken body, answer to a
+					// request nobody waits for, transport error code...) is reported, the next one is read
+					m.warnError(err)
 				}
 			}
 		}
@@ -391,8 +392,8 @@ messageTypeSwitching:
 		// игнорим, пришло и пришло, че бубнить то
 
 	case *objects.BadMsgNotification:
-		pp.Println(message)
-		panic(message) // for debug, looks like this message is important
+		// the server ignored one of our messages. that's an error worth reporting (it goes to Warnings), but not
+		// a reason to take the whole process down
 		return BadMsgErrorFromNative(message)
 
 	case *objects.RpcResult:
